@@ -22,7 +22,7 @@ CHECKS = {
          "DESIGN.md §C09"),
  "C20": ("svcmon", "exploration",
          "runtime monitor: recorded request/scrape history checked with porcupine against a per-(method,code) counter model + conservation after quiescence",
-         "Client-boundary history of sequential and concurrent (8/16 clients) mixed requests with a scraper running throughout; porcupine checks the history (request = increment inside its interval, scrape = read) partitioned by (method, code); after quiescence the scraped totals must equal the client tally and the gauge be 0; gauge bounded by overlapping operations on every scrape; scrapes must complete while proofs are in flight; one request stays in flight for 33 s (130 s thorough); with six requests held inside the handler a scrape must be answered and show them; 250 (1500) bursts of 8-32 cheap concurrent requests each followed by a quiescent scrape whose gauge must read 0. Held on the histories recorded.",
+         "Client-boundary history of sequential and concurrent (8/16 clients) mixed requests with a scraper running throughout; porcupine checks the history of these phases (request = increment inside its interval, scrape = read) partitioned by (method, code), up to the last quiescent moment before the burst phase; after every burst the scraped totals must equal the responses received so far; after quiescence the scraped totals must equal the client tally and the gauge be 0; gauge bounded by overlapping operations on every scrape; scrapes must complete while proofs are in flight; one request stays in flight for 33 s (130 s thorough); with six requests held inside the handler a scrape must be answered and show them; 250 (1500) bursts of 8-32 cheap concurrent requests each followed by a quiescent scrape whose gauge must read 0. Held on the histories recorded.",
          "Assumes promhttp increments before the handler chain returns and small responses are flushed afterwards (checked implicitly: otherwise porcupine would reject the unchanged tree).",
          "DESIGN.md §C20"),
  "C12": ("climon", "exploration",
